@@ -167,12 +167,12 @@ class CircularRecord(SeqRecord):
     def __lshift__(self, index):
         """Rotate the sequence counter-clockwise, preserving annotations.
         """
-        return self >> (-index % len(self.seq))
+        return self >> (-index % (len(self.seq) or 1))
 
     def __rshift__(self, index):
         """Rotate the sequence clockwise, preserving annotations.
         """
-        index %= len(self.seq)  # avoid unnecessary cycles
+        index %= len(self.seq) or 1  # avoid unnecessary cycles (an empty record is its own rotation)
 
         if index == 0:
             return self
